@@ -263,6 +263,9 @@ func FieldAddrT(base Term, idx int) Term {
 		App("Path", "pcons", IntLit(int64(idx)), App("Path", "apath", base)))
 }
 func MkSlice(arr, off, ln, cp Term) Term { return App(SSlice, "mk-slice", arr, off, ln, cp) }
+// ElemIdx is the position of element i of a slice with offset off in its element store.
+// It is off+i, wrapped in a function so that quantifier triggers do not contain arithmetic.
+func ElemIdx(off, i Term) Term { return App(SInt, "idx_at", off, i) }
 func SArr(s Term) Term                   { return App(SInt, "sarr", s) }
 func SOff(s Term) Term                   { return App(SInt, "soff", s) }
 func SLen(s Term) Term                   { return App(SInt, "slen", s) }
